@@ -32,7 +32,7 @@ COMPONENTS = {
              "csv", "io.TextIOWrapper/BufferedReader", "zipfile", "xml.etree.ElementTree", "xlrd"],
     "stub": ["SimFS/SimRaw", "text / ODF / XLSX peers (encoders)", "scheduler-driven client (eager / lazy)"],
 }
-PROBES_REQUIRED = ["other-data-set-validated-between-construction-and-use", "second-pass-on-the-same-reader", "zero-item-row", "error-inspected-late", "culprit-last-column", "culprit-right-after-header", "short-row", "long-row",
+PROBES_REQUIRED = ["cid-given-as-path", "cid-file-rewritten-between-two-uses", "other-data-set-validated-between-construction-and-use", "second-pass-on-the-same-reader", "zero-item-row", "error-inspected-late", "culprit-last-column", "culprit-right-after-header", "short-row", "long-row",
                    "format:delimited", "format:fixed", "format:ods", "format:excel", "check-rejection"]
 
 
@@ -56,6 +56,8 @@ def generate(seed, tier):
             "api": swarm.choice(["Reader", "rows"]),
             "consumer": {"style": swarm.choice(["eager", "lazy"]), "lag": swarm.choice([1, 2, 3, 100])},
             "prepass": swarm.choice([None, None, None, 0, 1, 2, -1]) if source == "path" else None,
+            # the CID is handed over as the path of a CSV file - which a moment ago held another definition
+            "cid_as_path": swarm.choice([None, None, None, "plain", "rewritten"]),
             # another data set is validated with the same Cid object between construction and use of the reader
             "other_data_between": tabular.draw_table(rng, spec, 4, bad_rate=0.0, ragged_rate=0.0) if swarm.random() < 0.2 else None,
             "ods_features": sorted(swarm.sample(["colruns", "colstyle", "stored", "utf16"], swarm.randint(0, 2)))}
@@ -78,6 +80,19 @@ def execute(scenario):
     mutated = None
     with simfs.Seams(fs):
         cid = lib.load_cid(tabular.cid_rows(spec))
+        if scenario.get("cid_as_path"):
+            if scenario["cid_as_path"] == "rewritten":
+                other_spec = dict(spec, fields=spec["fields"] + [{"name": "zz_extra", "type": "Text", "empty": True}], checks=[])
+                fs.store("cid.csv", lib.render_delimited(tabular.cid_rows(other_spec), ",", '"', "\n").encode("utf-8"))
+                fs.store("other-" + path, raw_bytes)
+                earlier = lib.ReadRun("cid.csv", "other-" + path, "Reader", "continue")
+                while earlier.step():
+                    pass
+                earlier.close()
+                result.probe("cid-file-rewritten-between-two-uses")
+            fs.store("cid.csv", lib.render_delimited(tabular.cid_rows(spec), ",", '"', "\n").encode("utf-8"))
+            cid = "cid.csv"
+            result.probe("cid-given-as-path")
         source_kind = scenario.get("source", "path")
         file_name = path
         if source_kind == "stream":
@@ -206,6 +221,8 @@ def candidates(scenario):
         yield lib.with_value(scenario, ["consumer"], {"style": "eager", "lag": 1})
     if scenario.get("source") != "path":
         yield lib.with_value(scenario, ["source"], "path")
+    if scenario.get("cid_as_path"):
+        yield lib.with_value(scenario, ["cid_as_path"], None)
     if scenario.get("prepass") is not None:
         yield lib.with_value(scenario, ["prepass"], None)
     if scenario.get("other_data_between"):
